@@ -422,18 +422,23 @@ type c20sShare struct {
 	K2      string `json:"k2"`
 	Content string `json:"content"`
 	Frag    string `json:"frag"`
+	Spell   string `json:"spell"` // how the second reference spells the file name: "plain" / "dotslash"
 }
 
 // c20sBuild returns the root document and writes shared.json into dir.
 func c20sBuild(sh c20sShare, dir string) any {
-	refFor := func(kind string) any {
+	refFor := func(kind string, second bool) any {
+		file := "shared.json"
+		if second && sh.Spell == "dotslash" {
+			file = "./shared.json"
+		}
 		if sh.Frag == "whole" {
-			return map[string]any{"$ref": "shared.json"}
+			return map[string]any{"$ref": file}
 		}
 		if kind == "pathItem" {
-			return map[string]any{"$ref": "shared.json#/paths/~1x"}
+			return map[string]any{"$ref": file + "#/paths/~1x"}
 		}
-		return map[string]any{"$ref": "shared.json#/components/" + c20gSection[kind] + "/X"}
+		return map[string]any{"$ref": file + "#/components/" + c20gSection[kind] + "/X"}
 	}
 	var shared any
 	if sh.Frag == "whole" {
@@ -454,7 +459,7 @@ func c20sBuild(sh c20sShare, dir string) any {
 	post := map[string]any{"responses": map[string]any{"200": map[string]any{"description": "d"}}}
 	usePost := false
 	for i, kind := range []string{sh.K1, sh.K2} {
-		r := refFor(kind)
+		r := refFor(kind, i == 1)
 		code := fmt.Sprintf("20%d", i+1)
 		resp := map[string]any{"description": "d"}
 		get["responses"].(map[string]any)[code] = resp
